@@ -249,7 +249,7 @@ def stats_of(rep, fam):
         problems.append(f"{len(rep.errors)} path(s) ended in an unexpected exception / leak:\n{first}")
     if rep.capped:
         problems.append(f"exploration capped ({rep.capped}) after {rep.paths} paths -- inconclusive")
-    if rep.inconclusive_branches:
+    if rep.inconclusive_branches and not fam.get("allow_inconclusive_paths"):
         problems.append(f"{rep.inconclusive_branches} branch feasibility queries returned unknown")
     for k in rep.aborts:
         if k in ("unknown-pc", "max-decisions", "after-violation"):
@@ -264,7 +264,7 @@ def stats_of(rep, fam):
         problems.append(f"only {rep.validated} of {rep.done} completed paths were cross-validated")
     cuts = sum(v for k, v in rep.aborts.items() if k.startswith("cut:"))
     return {
-        "paths": rep.paths, "paths_inconclusive": rep.aborts.get("unknown-pc", 0), "nontrivial": rep.nontrivial, "done": rep.done, "aborts": rep.aborts, "cuts": cuts,
+        "paths": rep.paths, "paths_inconclusive": rep.aborts.get("unknown-pc", 0) + rep.inconclusive_branches, "nontrivial": rep.nontrivial, "done": rep.done, "aborts": rep.aborts, "cuts": cuts,
         "oblig": rep.oblig, "discharged": rep.discharged, "unknown": rep.unknown,
         "unknown_labels": rep.unknown_labels,
         "queries": rep.queries, "solver_s": round(rep.solver_s, 3), "validated": rep.validated,
